@@ -32,6 +32,15 @@ holds a paragraph ("text", default) / nothing but the images ("bare") / a paragr
     Enumerated: every layout of 1..2 anchors (kinds: png 1x1, jpeg 640x480; thorough: + gif 3x2 and 1..3 anchors), every identity
     pattern, every split over 1..2 units, every non-empty set of linked anchors, per link form (quick: link_parent, link_root,
     link_dotparent; thorough: all six).
+`gone` (docx/pptx/xlsx/odt/odp/ods/odg/epub; goes with the default reference shape of the container) - pictures whose file is
+not in the package NEXT TO pictures that are:  {"ref": "relative" | "plain", "gone": "010"}
+    `gone` has one character per anchor in document order; "1" = this anchor references (relationship / xlink:href / manifest item
+    + img/@src, spelled exactly like an intact reference) an image part of its own that is NOT stored in the container - a dangling
+    reference, what "missing" is for the whole document; "0" = an ordinary embedded picture.  Ground truth: the embedded anchors
+    only, in document order, numbered 1..n without gaps, on their units; a dangling anchor produces nothing and consumes nothing.
+    Enumerated: every layout of 2..K anchors (every identity pattern, every split over 1..2 units) and every set of dangling anchors
+    that leaves at least one embedded and one dangling anchor; quick: K = 2 over png 1x1 / jpeg 640x480 plus K = 3 over png 1x1;
+    thorough: K = 3 over png 1x1 / jpeg 640x480 / gif 3x2.
 `env` (docx/pptx/xlsx only, optional; absent = the package exactly as the reference writer emits it) is the relationship
 neighbourhood of the pictures, see verif/props/c14_pkg.py:
     {"neigh": 1}                  the parts that reference pictures also carry what such parts usually carry: xlsx sheets a cell
@@ -107,6 +116,11 @@ LINK_REFS_QUICK = ["link_parent", "link_root", "link_dotparent"]
 LINK_FORMATS = ("odt", "odp", "ods", "odg")
 LINK_KINDS_QUICK = [("png", "1x1"), ("jpeg", "640x480")]
 LINK_KINDS_ALL = [("png", "1x1"), ("jpeg", "640x480"), ("gif", "3x2")]
+# dangling references next to intact ones: containers that can reference a part that is not stored (those with a "missing" shape)
+GONE_FORMATS = ("docx", "pptx", "xlsx", "odt", "odp", "ods", "odg", "epub")
+GONE_KINDS_QUICK = [("png", "1x1"), ("jpeg", "640x480")]
+GONE_KINDS_ALL = [("png", "1x1"), ("jpeg", "640x480"), ("gif", "3x2")]
+GONE_UID = 16                                           # payload id offset of the part a dangling anchor names (never stored)
 IMG_FORMATS = {"docx": ["png", "jpeg", "gif", "bmp"], "pptx": ["png", "jpeg", "gif", "bmp"], "xlsx": ["png", "jpeg", "gif", "bmp"],
                "odt": ["png", "jpeg", "gif", "bmp"], "odp": ["png", "jpeg", "gif", "bmp"], "ods": ["png", "jpeg", "gif", "bmp"],
                "odg": ["png", "jpeg", "gif", "bmp"], "epub": ["png", "jpeg", "gif", "bmp"], "pdf": ["jpeg"],
@@ -211,6 +225,19 @@ def cases_for(tier, fmt):
                 for mask in itertools.product("01", repeat=n):
                     if "1" in mask:
                         yield {"units": units, "ref": ref, "var": "text", "linked": "".join(mask)}
+    # dangling references next to intact ones: every set of anchors that leaves >= 1 embedded and >= 1 dangling anchor
+    if fmt in GONE_FORMATS:
+        fams = [(GONE_KINDS_QUICK, 2), (GONE_KINDS_QUICK[:1], 3)] if quick else [(GONE_KINDS_ALL, 3)]
+        done = set()
+        for gkinds, gk in fams:
+            for units in layouts(gkinds, gk):
+                n = sum(len(u) for u in units)
+                if n < 2 or repr(units) in done:
+                    continue
+                done.add(repr(units))
+                for mask in itertools.product("01", repeat=n):
+                    if "1" in mask and "0" in mask:
+                        yield {"units": units, "ref": ref0, "var": "text", "gone": "".join(mask)}
     # file layouts of the image itself: every layout of 1..2 anchors over {the image in layout L, a plain 1x1 companion} that uses L
     companion = (IMG_FORMATS[fmt][0], "1x1")
     lays = LAY_QUICK if quick else LAY_ALL
@@ -238,7 +265,7 @@ def image_bytes(im):
 
 def embedded_units(case):
     """the units with the anchors that EMBED their picture (linked anchors removed)"""
-    mask = case.get("linked")
+    mask = case.get("linked") or case.get("gone")
     if not mask:
         return case["units"]
     it = iter(mask)
@@ -256,6 +283,14 @@ def _valid_case(fmt, case):
             return False
     elif case.get("ref") not in REFS[fmt]:
         return False
+    if "gone" in case:
+        mask = case["gone"]
+        if fmt not in GONE_FORMATS or case.get("ref") != REFS[fmt][0] or not isinstance(mask, str) or "1" not in mask or set(mask) - set("01"):
+            return False
+        if not isinstance(case.get("units"), list) or len(mask) != sum(len(u) for u in case["units"]) or "env" in case or "linked" in case:
+            return False
+        if case.get("var", "text") != "text":
+            return False
     if "env" in case:
         # only the canonical spelling (non-default components) of a neighbourhood is a case
         try:
@@ -280,6 +315,8 @@ def _valid_case(fmt, case):
 
 def render(fmt, case, tk):
     """-> bytes of the document. Raises NotImplementedError when the container cannot express the case."""
+    if case.get("gone"):
+        return _render_gone(fmt, case, tk)
     units, ref, var = case["units"], case["ref"], case.get("var", "text")
     keyof = lambda im: "k%d" % im[2]   # noqa
     imgs = {}
@@ -402,6 +439,89 @@ def render(fmt, case, tk):
         pics = [[si, keyof(im)] for si, u in enumerate(units) for im in u]
         return biff8.xls(doc, {k: v[0] for k, v in imgs.items()}, {"pictures": pics})
     raise ValueError(fmt)
+
+
+def _drop_members(data, payloads):
+    """the zip container without the members whose content is one of `payloads`; every payload must have been stored"""
+    import zipfile
+    src = zipfile.ZipFile(io.BytesIO(data))
+    out = io.BytesIO()
+    hit = set()
+    with zipfile.ZipFile(out, "w") as z:
+        for zi in src.infolist():
+            body = src.read(zi)
+            if body in payloads:
+                hit.add(body)
+                continue
+            z.writestr(zi, body, compress_type=zi.compress_type)
+    if hit != set(payloads):
+        raise RuntimeError("reference writer did not store %d of the parts that were to be removed" % (len(set(payloads)) - len(hit)))
+    return out.getvalue()
+
+
+def _render_gone(fmt, case, tk):
+    """the container in its default reference shape in which the anchors marked in case["gone"] reference a part of their own
+    (k<id>G: same kind, different payload) that is not stored; everything else is what the reference writer emits"""
+    units = case["units"]
+    imgs, ghosts = {}, {}
+    it = iter(case["gone"])
+    keys = []                       # per unit: the image key of every anchor (k<id> embedded, k<id>G dangling)
+    for u in units:
+        row = []
+        for im in u:
+            k = "k%d" % im[2]
+            if next(it) == "1":
+                k += "G"
+                w, h = (int(x) for x in im[1].split("x"))
+                ghosts[k] = IMG.make(im[0], w, h, im[2] + 1 + GONE_UID, lay_of(im))
+                imgs[k] = (ghosts[k], im[0])
+            else:
+                imgs[k] = (image_bytes(im), im[0])
+            row.append(k)
+        keys.append(row)
+    real = {v[0] for k, v in imgs.items() if k not in ghosts}
+    if real & set(ghosts.values()):
+        raise RuntimeError("payload of a dangling part equals an embedded file")
+    para = lambda: [["p", [["t", tk.new("B")]]]]   # noqa
+    if fmt in ("docx", "pptx"):
+        from verif.gen import ooxml
+        doc = ["doc", {}, [["unit", para() + [["img", k] for k in row], {}] for row in keys]]
+        return _drop_members(getattr(ooxml, fmt)(doc, imgs, {"image_ref": "relative"}), set(ghosts.values()))
+    if fmt == "xlsx":
+        from verif.gen import ooxml
+        doc = ["doc", {}, [["sheet", tk.new("N"), [[["s", tk.new("C")], ["i", 5]], [["s", tk.new("C")], ["i", 7]]], {"images": list(row)}]
+                           for row in keys]]
+        return _drop_members(ooxml.xlsx(doc, imgs, {"image_ref": "relative"}), set(ghosts.values()))
+    if fmt in ("odt", "odp", "odg", "ods"):
+        import zipfile
+        from verif.gen import odf
+        oi = {k: (d, ext, {"href": "missing" if k in ghosts else "plain"}) for k, (d, ext) in imgs.items()}
+        if fmt == "ods":
+            doc = ["doc", {}, [["sheet", tk.new("N"), [[["s", tk.new("C")], ["i", 5]], [["s", tk.new("C")], ["i", 7]]]] for _ in keys]]
+            data = odf.ods(doc, oi, {"images_at": [[si, k] for si, row in enumerate(keys) for k in row]})
+        else:
+            blocks = (lambda: [["h", 1, [["t", tk.new("H")]]]]) if fmt == "odp" else para
+            doc = ["doc", {}, [["unit", blocks() + [["img", k] for k in row], {}] for row in keys]]
+            data = getattr(odf, fmt)(doc, oi, None)
+        z = zipfile.ZipFile(io.BytesIO(data))
+        stored = {z.read(n) for n in z.namelist()}
+        if (stored & set(ghosts.values())) or not real <= stored:
+            raise RuntimeError("reference writer stored a dangling part / did not store an embedded one")
+        return data
+    if fmt == "epub":
+        from verif.gen import htmlfam
+        items, seen, chapters = [], set(), []
+        for row in keys:
+            body = "<p>%s</p>" % tk.new("B")
+            for k in row:
+                href = "img/%s.%s" % (k, imgs[k][1])
+                body += '<p><img src="%s" alt=""/></p>' % href
+                if k not in seen:
+                    seen.add(k)
+                    items.append((k, href, IMG.CTYPE[imgs[k][1]], imgs[k][0]))
+            chapters.append(htmlfam.xhtml_page(body, "t"))
+        return _drop_members(htmlfam.epub(chapters, {"title": "t"}, extra_items=items), set(ghosts.values()))
+    raise NotImplementedError("no dangling references in %s" % fmt)
 
 
 def _render_odf_links(fmt, case, tk, imgs, oi, text_blocks, tbl_blocks):
@@ -684,6 +804,9 @@ def outcome_class(fmt, case, obs, fails):
     if obs is None:
         return "raises"
     n = sum(len(u) for u in case["units"])
+    if case.get("gone"):
+        return "%s/%s+gone n=%d gone=%d got=%d units=%d fails=%s" % (fmt, case["ref"], n, case["gone"].count("1"), len(obs["doc_images"]),
+                                                                     len(obs["units"]), ",".join(sorted(c for c, _ in fails)))
     return "%s/%s n=%d got=%d units=%d tbl=%d fails=%s" % (fmt, case["ref"], n, len(obs["doc_images"]), len(obs["units"]), len(obs["doc_tables"]),
                                                          ",".join(sorted(c for c, _ in fails)))
 
@@ -784,10 +907,11 @@ def _renumber(units):
     return out
 
 
-def _shrinks_linked(case):
-    """towards the package without links (the embedded anchors alone, plain hrefs), then fewer units / anchors / links, simpler kinds"""
-    units, mask, ref, var = case["units"], case["linked"], case["ref"], case.get("var", "text")
-    yield {"units": _renumber(embedded_units(case)), "ref": "plain", "var": var}
+def _shrinks_linked(case, mk="linked"):
+    """towards the package without links (the embedded anchors alone, plain hrefs), then fewer units / anchors / links, simpler kinds;
+    mk = "gone": the same for dangling references (towards the package in which every picture is stored)"""
+    units, mask, ref, var = case["units"], case[mk], case["ref"], case.get("var", "text")
+    yield {"units": _renumber(embedded_units(case)), "ref": ("plain" if mk == "linked" else ref), "var": var}
     flat = []                                     # (unit index, image, link bit) per anchor
     it = iter(mask)
     for ui, u in enumerate(units):
@@ -797,7 +921,7 @@ def _shrinks_linked(case):
         m = "".join(a[2] for a in anchors)
         if "1" not in m:
             return None
-        return {"units": _renumber([[a[1] for a in anchors if a[0] == ui] for ui in range(nunits)]), "ref": ref, "var": var, "linked": m}
+        return {"units": _renumber([[a[1] for a in anchors if a[0] == ui] for ui in range(nunits)]), "ref": ref, "var": var, mk: m}
     cands = []
     if len(units) == 2:
         for keep in (0, 1):
@@ -820,7 +944,7 @@ def _shrinks_linked(case):
         for nf, nd in ([("png", "1x1")] if (f, d) != ("png", "1x1") else []) + ([(f, "1x1")] if d != "1x1" and f != "png" else []):
             cands.append(build([(a[0], [nf, nd, ident] if a[1][2] == ident else a[1], a[2]) for a in flat], len(units)))
     # the form LibreOffice writes
-    if ref != "link_parent":
+    if mk == "linked" and ref != "link_parent":
         cands.append(dict(case, ref="link_parent"))
     for c in cands:
         if c is not None and c != case:
@@ -832,6 +956,9 @@ def shrinks(case):
         return
     if "linked" in case:
         yield from _shrinks_linked(case)
+        return
+    if "gone" in case:
+        yield from _shrinks_linked(case, "gone")
         return
     if "env" in case:
         # towards the writer's own package: no neighbourhood at all, then one component at a time (rev -> nfirst -> writer)
@@ -930,9 +1057,14 @@ def embeds(small, big):
         return small == big
     if "linked" in small:
         return "linked" in big and small["ref"] == big["ref"] and _embeds_linked(small, big)
+    if "gone" in small:
+        return "gone" in big and small["ref"] == big["ref"] and _embeds_linked(small, big, "gone")
     if "linked" in big:
         # a shape without links explains a package with links through its embedded anchors alone
         big = {"units": embedded_units(big), "ref": "plain", "var": big.get("var", "text")}
+    if "gone" in big:
+        # a shape without dangling references explains a package with some through its embedded anchors alone
+        big = {"units": embedded_units(big), "ref": big["ref"], "var": big.get("var", "text")}
     if small["ref"] != big["ref"]:
         if not (small["ref"] in _default_refs(big["ref"]) and big["ref"] not in NO_IMAGE_REFS):
             return False
@@ -968,11 +1100,11 @@ def embeds(small, big):
     return (not has_repeat(su)) or has_repeat(bu)
 
 
-def _embeds_linked(small, big):
+def _embeds_linked(small, big, mk="linked"):
     """anchors of small (with their link bits) embed in those of big unit by unit (one unit of small: in one unit of big or in the
     flattened document); simplest kind (png 1x1) matches any; a repeated identity needs a repeated identity"""
     def ann(case):
-        it = iter(case["linked"])
+        it = iter(case[mk])
         return [[(im, next(it)) for im in u] for u in case["units"]]
 
     def kmatch(a, b):
@@ -1062,7 +1194,10 @@ def run(ctx):
                    "same 0..K anchor layouts; odt/odp/ods/odg additionally with links that leave the package (../ , / , ./../ ; thorough: + "
                    "../../ , file:/// , http://) but end in the name of a stored package member: every layout of 1..K anchors over LINK kinds, "
                    "every identity pattern and split, every non-empty set of linked anchors (the rest embed the like-named member; the member "
-                   "of every id is stored); "
+                   "of every id is stored); docx/pptx/xlsx/odt/odp/ods/odg/epub additionally with dangling references next to intact ones "
+                   "(default reference shape): every layout of 2..K anchors (quick: K = 2 over png 1x1 / jpeg 640x480 and K = 3 over png 1x1; "
+                   "thorough: K = 3 over png / jpeg / gif), every identity pattern and split, every set of anchors whose part is not stored "
+                   "that leaves >= 1 embedded and >= 1 dangling anchor; "
                    "every supported fixture file (inclusion clauses only); each package written by the reference writers, extracted by "
                    "the real extractor and judged against the bytes the harness embedded; distinct_nontrivial = distinct "
                    "(format, reference shape, anchors, images returned, units, tables, failing clauses) classes",
@@ -1077,6 +1212,10 @@ def run(ctx):
                                                         "forms": {k: LINK_REFS[k] + "Pictures/k<id>.<ext>" for k in (LINK_REFS_QUICK if ctx.quick else LINK_REFS)},
                                                         "kinds": LINK_KINDS_QUICK if ctx.quick else LINK_KINDS_ALL,
                                                         "linked_sets": "every non-empty subset of the anchors", "members": "one per id, always stored"},
+                                          "dangling_refs": {"formats": list(GONE_FORMATS), "anchors": "2..2 (kinds) + 3 (png 1x1)" if ctx.quick else "2..3",
+                                                            "kinds": GONE_KINDS_QUICK if ctx.quick else GONE_KINDS_ALL,
+                                                            "dangling_sets": "every subset of the anchors that leaves >= 1 embedded and >= 1 dangling",
+                                                            "ref": "default reference shape; the dangling anchor names a part of its own that is not stored"},
                                           "env": {"formats": list(ENV_FORMATS), "neighbourhoods": PKG.envs(),
                                                   "kinds": ENV_KINDS_QUICK if ctx.quick else ENV_KINDS_ALL,
                                                   "refs": ENV_REFS_QUICK if ctx.quick else ENV_REFS_ALL}}}
@@ -1100,6 +1239,9 @@ ASSUMPTIONS = [
     "(87a and 89a); a PNG in IHDR.  The thumbnail inside an Exif segment is not an image of the document",
     "odf: the draw:frame is 1cm x 1cm whatever the pixel size of the file; 'pixel size' is judged against the image file header",
     "missing / external references: no image may be returned for them (an entry with empty bytes counts as an image) and nothing may raise",
+    "dangling references next to intact ones: a picture whose part is not stored is not an image of the document; it must not be "
+    "returned, must not raise and must not consume a number: the images that ARE embedded are numbered 1..n in document order on "
+    "their own units exactly as if the dangling anchors were absent",
     "odf links: an xlink:href that is a relative path starting with '../' (after removing './' segments), an absolute path '/...' or an "
     "absolute IRI (file:, http:) does not name a member of the package (ODF 1.2 part 3, 3.7) even when its tail equals the name of a "
     "stored member; such a draw:image is a link to a file outside the document and, like 'external', must not produce an image; a "
